@@ -98,6 +98,20 @@ def run(rep, tier, root=None):
     rets = I.returns(f, [h, p, L, w])
     stores = {s[1]: s for s in I.store_log if s[0] == f.fq}
     loops = [l for l in I.loop_log if l[0] == f.fq]
+    comp_form = False
+    if len(rets) == 1 and not loops and not stores and isinstance(rets[0][1], (tuple, list)) and len(rets[0][1]) >= 2 and \
+            all(isinstance(v_, Rat) and isinstance(v_.single_atom(), Fn) and v_.single_atom().name == "listcomp" and
+                isinstance(v_.single_atom().args[0], Rat) and isinstance(v_.single_atom().args[2], tuple) and len(v_.single_atom().args[2]) == 3
+                and all(isinstance(x_, Rat) for x_ in v_.single_atom().args[2]) for v_ in rets[0][1]) and \
+            len(set((v_.single_atom().args[1], tuple(x_.key() for x_ in v_.single_atom().args[2])) for v_ in rets[0][1])) == 1:
+        # the slab loop written as one comprehension per output: out = array([g(i) for i in range(L)]) is the loop
+        # `for i in range(L): out[i] = g(i)` over a freshly allocated array of exactly that many items
+        comp_form = True
+        lc0 = rets[0][1][0].single_atom()
+        cvar = Rat.atom(Sym(lc0.args[1], ("int", "loopvar")))
+        loops = [(f.fq, f.node.lineno, cvar, RangeVal(*lc0.args[2]))]
+        stores = {"output %d" % k_: (f.fq, "output %d" % k_, cvar, v_.single_atom().args[0], f.node.lineno, "=", "comprehension")
+                  for k_, v_ in enumerate(rets[0][1])}
     if len(rets) != 1 or len(loops) != 1 or len(stores) < 2:
         # not the loop-over-slabs form.  One vectorised form can be decided: running sums cut at slab starts
         # (numpy.add.reduceat) are not slab sums - an empty slab returns the element at its start index instead of 0, so that
@@ -165,10 +179,16 @@ def run(rep, tier, root=None):
               "slabs consume label %s for %s in %r; digitize produces 1..L" % (nf(k), nf(loopvar), rng), f.where())
     # allocations and written indices
     allocs = [c for c in I.call_log if c[0] == f.fq and c[1].split(".")[-1] in ("zeros", "empty", "ones")]
-    rep.check(len(allocs) >= 2 and all(c[2] and same_value(c[2][0], L) for c in allocs), "E1.allocation",
-              f.fq + ": outputs allocated with L elements", "allocations: %s" % [(c[1], nf(c[2][0]) if c[2] else None) for c in allocs], f.where())
+    if comp_form:
+        rep.check(same_value((rng.lo, rng.hi, rng.step), (Rat.const(0), L, Rat.const(1))), "E1.allocation",
+                  f.fq + ": outputs allocated with L elements", "the output comprehensions run over %r" % (rng,), f.where())
+    else:
+        rep.check(len(allocs) >= 2 and all(c[2] and same_value(c[2][0], L) for c in allocs), "E1.allocation",
+                  f.fq + ": outputs allocated with L elements", "allocations: %s" % [(c[1], nf(c[2][0]) if c[2] else None) for c in allocs], f.where())
     from .c14 import _is_float_dtype
     typed = [a for a in I.alloc_log if a[0] == f.fq and "dtype" in a[3] and not _is_float_dtype(a[3]["dtype"])]
+    typed += [(c[0], c[1], c[2], c[3]) for c in I.call_log if c[0] == f.fq and c[1].split(".")[-1] in ("array", "asarray", "fromiter")
+              and "dtype" in c[3] and not _is_float_dtype(c[3]["dtype"])]
     rep.check(not typed, "E1.allocation-dtype", f.fq + ": outputs are floating-point arrays",
               "output arrays are allocated with dtype %s: effective heights / winds (fractional powers of weighted means) and strengths "
               "are truncated on assignment when the input profile is given as integers" % [repr(a[3]["dtype"])[:40] for a in typed], f.where())
